@@ -294,3 +294,11 @@ def _(c):
              and abs(Range((sta, "SAT", "RELAY", "OTHER"), None, None).from_orbit(orb).value - 3 * float(sph.r)) <= 1e-6)
     c.ensure("measure.angles", Azimut(legs1, None, None).from_orbit(orb).value == float(sph.theta) and Elevation(legs1, None, None).from_orbit(orb).value == float(sph.phi))
     c.ensure("measure.range_rate", abs(Doppler(legs1, None, None).from_orbit(orb).value - float(sph.r_dot)) <= 1e-9)
+    # another target seen from the same station at the same date, straight afterwards: its measures are its own topocentric quantities
+    rt2 = rs + (dist * 0.37 + 3.0e5) * np.array([d[1], -d[2], d[0]])
+    sv2 = StateVector(list(rt2) + list(-0.5 * vt[::-1]), date, "cartesian", "ITRF")
+    sph2 = sv2.copy(frame=sta, form="spherical")
+    got2 = [cls(legs1, None, None).from_orbit(sv2).value for cls in (Range, Azimut, Elevation, Doppler)]
+    c.ensure("measure.second_target", abs(got2[0] - float(sph2.r)) <= 1e-6 and got2[1] == float(sph2.theta) and got2[2] == float(sph2.phi) and abs(got2[3] - float(sph2.r_dot)) <= 1e-9)
+    again = [cls(legs1, None, None).from_orbit(sv).value for cls in (Range, Azimut, Elevation, Doppler)]
+    c.ensure("measure.first_target_again", abs(again[0] - float(sph.r)) <= 1e-6 and again[1] == float(sph.theta) and again[2] == float(sph.phi) and abs(again[3] - float(sph.r_dot)) <= 1e-9)
